@@ -24,7 +24,7 @@ package capacity
 //@   loop bl invariant lengths: len(allowedBL) == 3 && allowedBL[0] == 28 && allowedBL[1] == 26 && allowedBL[2] == 24
 //@   loop bl invariant never-above-target: old(currentSize) <= currentSize && currentSize <= targetSize && len(dstList) >= len(old(dstList))
 //@   loop space invariant never-above-target: old(currentSize) <= currentSize && currentSize <= targetSize && len(dstList) >= len(old(dstList)) && (bl == 24 || bl == 26 || bl == 28)
-//@   assert-at call? PlotSize#2 skipped-only-if-it-would-exceed-the-target: currentSize > targetSize
+//@   assert-at call PlotSize#2 skipped-only-if-it-would-exceed-the-target: currentSize > targetSize
 //@   ensures never-above-target: currentSize <= result1 && result1 <= targetSize
 //@   ensures finished-iff-gap-below-smallest-plot: result2 == (targetSize - result1 < 100663296)
 //@   ensures only-appends: len(result0) >= len(dstList)
@@ -46,7 +46,7 @@ package capacity
 //@   loop bl invariant lengths: len(allowedBL) == 3 && allowedBL[0] == 28 && allowedBL[1] == 26 && allowedBL[2] == 24
 //@   loop bl invariant never-above-target: old(currentSize) <= currentSize && currentSize <= targetSize && len(dstList) >= len(old(dstList))
 //@   loop space invariant never-above-target: old(currentSize) <= currentSize && currentSize <= targetSize && len(dstList) >= len(old(dstList)) && (bl == 24 || bl == 26 || bl == 28)
-//@   assert-at call? PlotSize#2 skipped-only-if-it-would-exceed-the-target: currentSize > targetSize
+//@   assert-at call PlotSize#2 skipped-only-if-it-would-exceed-the-target: currentSize > targetSize
 //@   ensures never-above-target: currentSize <= result1 && result1 <= targetSize
 //@   ensures finished-iff-gap-below-smallest-plot: result2 == (targetSize - result1 < 100663296)
 //@   ensures only-appends: len(result0) >= len(dstList)
